@@ -279,10 +279,15 @@ class Obligation:
         self.known = None
 
 
+CURRENT = None  # the context of the path being explored (spec functions add their axiom instances to it)
+
+
 class Ctx:
     """State of one symbolic path."""
 
     def __init__(self, prefix=(), timeout_ms=10000, seed=0):
+        global CURRENT
+        CURRENT = self
         self.solver = z3.Solver()
         self.solver.set("timeout", timeout_ms)
         self.solver.set("random_seed", seed)
@@ -496,20 +501,61 @@ class Ctx:
             return "outside"
         return "unknown"
 
-    def _second_opinion(self, cond):
+    def nlsat_check(self, cond, relevant_only=False):
+        """pose pc & not(cond) to z3's nlsat after replacing applications of uninterpreted functions by
+        fresh constants (sound for 'unsat': the abstraction only forgets congruence)."""
         try:
+            asserts = list(self.solver.assertions()) + [z3.Not(cond)]
+            table = {}
+
+            def abstract(e):
+                if z3.is_app(e) and e.num_args() > 0 and e.decl().kind() == z3.Z3_OP_UNINTERPRETED:
+                    key = e.get_id()
+                    if key not in table:
+                        table[key] = (e, z3.Const("uf!%d" % len(table), e.sort()))
+                    return table[key][1]
+                if z3.is_app(e) and e.num_args() > 0:
+                    return e.decl()(*[abstract(c) for c in e.children()])
+                return e
+
+            goal = [abstract(a) for a in asserts]
             s2 = z3.Then("simplify", "solve-eqs", "qfnra-nlsat").solver()
             s2.set("timeout", self.timeout_ms)
-            for a in self.solver.assertions():
+            for a in goal:
                 s2.add(a)
-            s2.add(z3.Not(cond))
+            t0 = time.time()
             r = s2.check()
-            if r == z3.unsat:
-                return "discharged", None, "z3-nlsat"
-            if r == z3.sat:
-                return "failed", s2.model(), "z3-nlsat"
+            self.solver_secs += time.time() - t0
+            self.solver_calls += 1
+            return r
         except z3.Z3Exception:
-            pass
+            return z3.unknown
+
+    def lemma(self, label, cond):
+        """a lemma over spec terms: discharged (nlsat first, then the main solver), then available as a hypothesis"""
+        ob = Obligation("lemma", label, self.cur_line, self.cur_func)
+        ob.path = list(self.decisions)
+        t0 = time.time()
+        r = self.nlsat_check(cond)
+        if r == z3.unsat:
+            ob.status, ob.backend = "discharged", "z3-nlsat"
+        else:
+            r2 = self._check(z3.Not(cond))
+            if r2 == z3.unsat:
+                ob.status = "discharged"
+            elif r2 == z3.sat:
+                ob.status, ob.model = "failed", self.solver.model()
+            else:
+                ob.status, ob.detail = "unknown", "lemma not decided by nlsat/z3"
+        ob.secs = time.time() - t0
+        self.obligations.append(ob)
+        if ob.status == "discharged":
+            self.solver.add(cond)
+        return ob
+
+    def _second_opinion(self, cond):
+        if self.nlsat_check(cond) == z3.unsat:
+            return "discharged", None, "z3-nlsat"
         r = cvc5_check([*self.solver.assertions(), z3.Not(cond)], self.timeout_ms)
         if r == "unsat":
             return "discharged", None, "cvc5"
